@@ -42,6 +42,8 @@ class AbstractDenseTimeOnlineInterpreter(AbstractOnlineInterpreter, DenseTimeInt
             setattr(out, self.ast.out_var_field, rob)
 
         self.ast.var_object_dict = self.ast.var_object_dict.fromkeys(self.ast.var_object_dict, [])  #TODO I did not understand it.
+        # (the input buffers are emptied; the object that carries the output field must survive)
+        self.ast.var_object_dict[self.ast.out_var] = out
 
         return rob
 
